@@ -61,7 +61,7 @@ def path_oracle(h, sess, seg_ops, evs, single):
 def make_cfg(r, seed, observer):
     cfg = {
         "seed": seed, "n_ops": r.randint(8, 22), "recursive": r.random() < 0.85, "full": observer == "inotify" and r.random() < 0.25,
-        "bytes": False, "spelling": r.choice(["abs", "rel", "slash", "path", "relpath"]), "mode": r.choice(["plain", "plain", "small"]) if observer == "inotify" else "plain",
+        "bytes": False, "spelling": r.choice(["abs", "rel", "slash", "path", "relpath", "dot", "dotdot"]), "mode": r.choice(["plain", "plain", "small"]) if observer == "inotify" else "plain",
         "delay": 0.1, "probe_p": 0.0, "final_probes": False, "n_root": r.randint(2, 6), "n_out": r.randint(2, 4), "names": NAMES, "bias": BIAS,
         "observer": observer,
     }
